@@ -29,14 +29,16 @@ now *observed* by the C17 model checker rather than read off the source. Three o
 repaired defects were pointed out by authors of seeded changes while they read the tree
 (cpukinds allocated count, `hwloc_distances_release_remove` on adopted topologies) or were
 exposed by an input added to catch a seeded change (`chain.xml`, the NO_MEMATTRS
-configuration); each was first reproduced by the strengthened check. Round 5 added three:
+configuration); each was first reproduced by the strengthened check. Round 5 added four:
 the maintenance steps skipped under NO_DISTANCES / NO_MEMATTRS / NO_CPUKINDS (`1bb0db3`,
 found when those flag variants joined C17's reader topologies), `hwloc_topology_refresh()`
 storing into an adopted read-only mapping (`ad448c7`, pointed out by the author of a seeded
 change, reproduced once refresh() was driven on adopted topologies) and the `dont_merge`
 Group merged away by a restrict (`2859fdb`, a parent/child mix-up in
 `hwloc_filter_levels_keep_structure()`; raised by the C08 clause added at the very end of the
-previous session, seen as an alarm by `vp check`, triaged as a genuine defect).
+previous session, seen as an alarm by `vp check`, triaged as a genuine defect); and a fourth,
+`hwloc_bitmap_singlify_per_core()` doing nothing when Cores sit at several depths (found by C09's
+new depth-2 states).
 
 ### 8.1 Repaired (`fix:` commits, in the order they were found)
 
